@@ -312,7 +312,7 @@ def run(ctx, only_replay=None):
             for scn, rc, out, err, bad in ex.map(rone, rjobs):
                 rc_runs += 1
                 for op in scn["ops"]:
-                    rc_cov[op[0]] += 1
+                    rc_cov[op[0]] = rc_cov.get(op[0], 0) + 1
                 for kd in scn["kinds"]:
                     rc_cov["obj:" + kd] = rc_cov.get("obj:" + kd, 0) + 1
                 for sig, why in bad:
